@@ -4,4 +4,4 @@ cd /repo && /venv/bin/python -m pytest -q -p no:cacheprovider --timeout=900 2>&1
 grep -c "^FAILED" /tmp/.baseline_now.txt | xargs echo failed:
 tail -1 /tmp/.baseline_now.txt
 grep "^FAILED" /tmp/.baseline_now.txt | sed 's/ - .*//' | sort > /tmp/.baseline_failed.txt
-diff /tmp/.baseline_failed.txt /verif/baseline_failed.txt && grep -q "1403 passed" /tmp/.baseline_now.txt && echo BASELINE-OK || echo BASELINE-DIFFERS
+diff /tmp/.baseline_failed.txt /verif/baseline_failed.txt && grep -q "1403 passed" /tmp/.baseline_now.txt && echo BASELINE-OK || { echo BASELINE-DIFFERS; exit 1; }
